@@ -56,9 +56,19 @@ def make_property(rng, scope, pattern, widths, aliases_in_splits, left_nested):
     objs = {}
     desc = {}
     act_aliases = []
+    used_topics = []
     for pos in order:
         w = widths[pos]
-        names = [topics.pop() for _ in range(w)]
+        # topics are distinct within one event (a disjunction must not repeat a channel) but may recur in another position
+        # (a behaviour alternative on the terminator's channel with another predicate, ...)
+        names = []
+        for _ in range(w):
+            reuse = [u for u in used_topics if u not in names]
+            if reuse and rng.random() < 0.25:
+                names.append(rng.choice(reuse))
+            else:
+                names.append(topics.pop())
+        used_topics.extend(names)
         evs, bound = [], []
         see = list(act_aliases) if pos == 'terminator' else list(avail)
         for n in names:
